@@ -270,7 +270,7 @@ fn fixed_downlink(ch: usize) -> u32 {
     923_300_000 + 600_000 * (ch as u32 % 8)
 }
 
-fn default_rx2(region: &str) -> (u32, u8) {
+pub fn default_rx2(region: &str) -> (u32, u8) {
     match region {
         "EU868" => (869_525_000, 0),
         "EU433" => (434_665_000, 0),
@@ -318,8 +318,59 @@ pub fn oracle_c09_c10(op: &str, outs: &[String], check_c09: bool, check_c10: boo
     let fixed = is_fixed(region);
     let table = dr_table(region);
     let snaps: Vec<Option<Snap>> = outs.iter().map(|o| parse_snap(o)).collect();
+    // the power level the network last commanded, derived from the history's own LinkADRReq
+    // commands (RP002: TXPower index k = MaxEIRP - 2k dB) and the device's acknowledgement in the
+    // next uplink — not from the device's own bookkeeping
+    let mut commanded: Option<i32> = None;
+    let mut pending_cmd: Option<i32> = None; // index of a single-block LinkADRReq awaiting its answer
+    let mut prev_commanded: Option<i32> = None;
     for (i, (ev, out)) in evs.iter().zip(outs.iter()).enumerate() {
         let w0 = ev.split_whitespace().next().unwrap_or("");
+        if matches!(w0, "abp" | "sess") || out.contains("resp=JoinSuccess") {
+            // a new session keeps the MAC configuration in this stack; nothing to forget
+        }
+        if (w0 == "rx1" || w0 == "rx2") && check_c09 {
+            let w: Vec<&str> = ev.split_whitespace().collect();
+            pending_cmd = None;
+            if out.contains("DownlinkReceived") && w.len() >= 11 && w[3] == "d" {
+                let fopts = if w[8] == "-" { vec![] } else { unhex(w[8]) };
+                let payload = if w[10] == "-" { vec![] } else { unhex(w[10]) };
+                let mut bytes = fopts;
+                if w[9] == "0" {
+                    bytes.extend_from_slice(&payload);
+                }
+                let (cmds, _) = split_cmds(&bytes, down_len);
+                let adr: Vec<&(u8, Vec<u8>)> = cmds.iter().filter(|c| c.0 == 0x03).collect();
+                // tracked: one contiguous block that is the first answering command; any other
+                // downlink carrying a LinkADRReq makes the commanded level unknown
+                let first_is_adr = cmds.first().map(|c| c.0 == 0x03).unwrap_or(false);
+                let contiguous = cmds.iter().skip_while(|c| c.0 == 0x03).all(|c| c.0 != 0x03);
+                if !adr.is_empty() {
+                    if first_is_adr && contiguous {
+                        pending_cmd = Some((adr[adr.len() - 1].1[0] & 0x0f) as i32);
+                        prev_commanded = commanded;
+                    }
+                    commanded = None;
+                }
+            }
+        }
+        if w0 == "send" && check_c09 {
+            if let (Some(idx), Some(tx)) = (pending_cmd.take(), parse_tx(out)) {
+                if let Some(up) = tx.up {
+                    let answers = if up.fport == Some(0) { up.payload.clone() } else { up.fopts.clone() };
+                    let (ans, _) = split_cmds(&answers, up_len);
+                    if let Some((0x03, st)) = ans.first().map(|a| (a.0, a.1.clone())) {
+                        if st.first() == Some(&7) && idx != 15 {
+                            let lvl = max_eirp_dev(region) - 2 * idx;
+                            commanded = Some(if region == "US915" { lvl.min(21) } else { lvl });
+                        } else {
+                            // rejected, or "keep the current power": the earlier command stands
+                            commanded = prev_commanded;
+                        }
+                    }
+                }
+            }
+        }
         if w0 != "send" && w0 != "otaa" {
             continue;
         }
@@ -360,6 +411,13 @@ pub fn oracle_c09_c10(op: &str, outs: &[String], check_c09: bool, check_c10: boo
             }
             if tx.pw > limit {
                 return format!("FAIL:tx-power-{}-above-limit-{}", tx.pw, limit);
+            }
+            if !is_join {
+                if let Some(c) = commanded {
+                    if tx.pw > c {
+                        return format!("FAIL:tx-power-{}-above-the-commanded-level-{}", tx.pw, c);
+                    }
+                }
             }
             // channel defined and enabled (in the plan as it is after the selection)
             // judged against the plan before the uplink; when that plan offered no usable channel
